@@ -40,6 +40,29 @@ ASSUMPTIONS = [
 
 SUFFIXES = [".F90", ".f90", ".f"]
 
+# Constant headers placed beside every document: the '#include "x.h"' lines of the generated texts (textmut.pp_story_st and
+# the statement soup) then really pull in definitions - re-definitions with the other macro kind, headers including each
+# other, a header with an unterminated conditional.  They are part of the fixed environment, a case is still its text.
+HEADERS = {
+    "f.h": "#undef F\n#define F(a) ((a) * 2)\n",
+    "g.h": "#define G 2\n#ifdef F\n#undef F\n#define F G\n#endif\n",
+    "mac.h": "#ifdef MAC\n#undef MAC\n#endif\n#define MAC(a,b) a+b\n",
+    "other.h": "#define OTHER MAC\n#define MAC OTHER\n",
+    "n_.h": '#include "n_x.h"\n#undef N_\n#define N_(x) x\n',
+    "n_x.h": '#define N_X 1\n#include "n_.h"\n#if N_X\n',
+    "a.h": "#define a b\n#define b a\n", "foo.h": "#define foo(x) foo(x)\n#if\n", "x.h": "      integer :: from_header\n#else\n",
+    "n.h": "#define n(a,b) a\\\n", "val.h": "#undef val\n", "self.h": '#include "self.h"\n', "t1.h": "#elif 1\n#endif\n#endif\n",
+}
+
+
+def place_headers(d):
+    os.makedirs(d, exist_ok=True)
+    for n, t in HEADERS.items():
+        p = os.path.join(d, n)
+        if not os.path.exists(p):
+            with open(p, "w") as fh:
+                fh.write(t)
+
 
 # ------------------------------------------------------------------ runs in the worker
 def execute(text: str, scratch: str, l1: bool):
@@ -50,6 +73,7 @@ def execute(text: str, scratch: str, l1: bool):
 
     out = []
     norm = re.sub(r"\t", " ", text)
+    place_headers(scratch)
     for suf in SUFFIXES:
         path = os.path.join(scratch, "c03_doc" + suf)
         try:
@@ -109,6 +133,7 @@ def execute_l1(text: str, scratch: str):
         os.makedirs(d, exist_ok=True)
         for fn in os.listdir(d):
             os.unlink(os.path.join(d, fn))
+        place_headers(d)
         path = os.path.join(d, "doc" + suf)
         with open(path, "w", encoding="utf-8", newline="") as fh:
             fh.write("program seed\nend program seed\n")
@@ -153,7 +178,7 @@ def nontrivial_of(case, text):
     return True
 
 
-case_st = st.one_of(textmut.mutated_case_st(), textmut.mutated_case_st(), textmut.soup_st(), textmut.pp_story_st())
+case_st = st.one_of(textmut.mutated_case_st(), textmut.mutated_case_st(), textmut.soup_st(), textmut.pp_story_st(), textmut.stress_st())
 
 
 class Runner:
